@@ -99,6 +99,33 @@ func specAddrSet(h *TracerouteHop) bool { return len(h.IPAddress) != 0 }
 
 // No separation precondition is needed: the invariants allow the same hop object to occur in several slots.
 
+// identifier generation is external (google/uuid + base64): assumed to return a non-empty text and to touch nothing
+//@ assume func newBase64UUID
+//@ ensures[uuid.nonempty]   ret0 != ""
+//@ modifies nothing
+
+//@ func (*Results).normalizeTestRunID
+//@ safety C16
+//@ requires[pre.nonnil]     r != nil
+//@ ensures[C16.testid]      r.TestRunID != ""
+//@ modifies r.TestRunID
+
+//@ func (*Results).normalizeTracerouteRuns
+//@ safety C16
+//@ requires[pre.nonnil]     r != nil
+//@ ensures[C16.runid]       forall(k, 0, len(r.Traceroute.Runs), r.Traceroute.Runs[k].RunID != "")
+//@ ensures[C16.runs.same]   len(r.Traceroute.Runs) == old(len(r.Traceroute.Runs))
+//@ modifies elemtype(TracerouteRun).RunID
+//@ loop 1 invariant[ids]    0 <= i && i <= len(r.Traceroute.Runs) && forall(k, 0, i, r.Traceroute.Runs[k].RunID != "")
+
+// Normalize is the fixed pipeline of the five normalisation steps (each under its own contract below / above).
+//@ func (*Results).Normalize
+//@ safety C16
+//@ requires[pre.wf]         r != nil && forall(i, 0, len(r.Traceroute.Runs), len(r.Traceroute.Runs[i].Hops) >= 1 && forall(j, 0, len(r.Traceroute.Runs[i].Hops), r.Traceroute.Runs[i].Hops[j] != nil))
+//@ ensures[C16.norm.keeps]  r.Protocol == old(r.Protocol) && r.Destination.Hostname == old(r.Destination.Hostname) && r.Destination.Port == old(r.Destination.Port) && len(r.Traceroute.Runs) == old(len(r.Traceroute.Runs)) && len(r.E2eProbe.RTTs) == old(len(r.E2eProbe.RTTs))
+//@ ensures[C16.norm.steps]  ncalls("(*Results).normalizeTracerouteHops") == old(ncalls("(*Results).normalizeTracerouteHops")) + 1 && ncalls("(*Results).normalizeTracerouteHopsCount") == old(ncalls("(*Results).normalizeTracerouteHopsCount")) + 1 && ncalls("(*Results).normalizeE2eProbe") == old(ncalls("(*Results).normalizeE2eProbe")) + 1
+//@ modifies Results.TestRunID, elemtype(TracerouteRun).RunID, TracerouteHop.Reachable, Results.Traceroute.HopCount, Results.E2eProbe.PacketsSent, Results.E2eProbe.PacketsReceived, Results.E2eProbe.PacketLossPercentage, Results.E2eProbe.Jitter, Results.E2eProbe.RTT
+
 //@ func (*Results).normalizeTracerouteHops
 //@ safety C16
 //@ requires[pre.wf]         r != nil && forall(i, 0, len(r.Traceroute.Runs), forall(j, 0, len(r.Traceroute.Runs[i].Hops), r.Traceroute.Runs[i].Hops[j] != nil))
